@@ -81,3 +81,36 @@ Example slice_ops_example :
   let r := fold_left (gs_step 0%N (fun n => n)) [GAppend 4%N; GRemoveAt 1; GSet 0 8%N; GAppend 5%N] (gs_clone true [[1; 2; 3]%N] (GS 0 3)) in
   gs_read (fst r) (snd r) = [8; 3; 4; 5]%N /\ gs_read (fst r) (GS 0 3) = [1; 2; 3]%N.
 Proof. vm_compute. split; reflexivity. Qed.
+
+(* ---------- store.remove never wipes a surviving peer ---------- *)
+Open Scope nat_scope.
+
+Lemma two_distinct_length {A} (a b : A) l : In a l -> In b l -> a <> b -> 2 <= List.length l.
+Proof.
+  destruct l as [|x [|y t]]; cbn; intros Ha Hb Hne; try tauto; try lia.
+  destruct Ha as [->|[]], Hb as [->|[]]. congruence.
+Qed.
+
+(* removing ANOTHER member of the raft configuration never resets the store of the node that
+   executes the removal: its metadata afterwards is the metadata after the DeleteMetaNode
+   command, whatever the size of the cluster (2, 3, ...) *)
+Theorem remove_keeps_metadata st id addr d' :
+  In (ms_self st) (ms_peers st) -> In addr (ms_peers st) -> addr <> ms_self st ->
+  delete_meta_node (ms_data st) id = Ok d' ->
+  ms_data (remove_step true st id addr) = d' /\ In (ms_self st) (ms_peers (remove_step true st id addr)).
+Proof.
+  intros Hs Ha Hne E. unfold remove_step. rewrite E. unfold remove_resets.
+  pose proof (two_distinct_length _ _ _ Hs Ha (fun H => Hne (eq_sym H))) as L.
+  destruct (List.length (ms_peers st) <=? 1) eqn:C; [apply Nat.leb_le in C; lia|].
+  cbn [ms_data ms_peers]. split; auto. apply filter_In. split; auto.
+  apply negb_true_iff. apply String.eqb_neq. auto.
+Qed.
+
+(* counting the meta nodes left in the metadata instead: the leader of a two-node cluster wipes
+   itself when the follower is removed *)
+Lemma remove_by_meta_nodes_refuted :
+  let d := Dt 1 6 77 [Nd 1 "a:8091" "a:8089"; Nd 2 "b:8091" "b:8089"] [] [Db "db0" "" [] []] [] false 2 0 0 in
+  let st := MS "a:8089" (["a:8089"; "b:8089"]%string) d in
+  ms_data (remove_step false st 2 "b:8089") = init_data /\
+  ms_data (remove_step true st 2 "b:8089") = Dt 1 6 77 [Nd 1 "a:8091" "a:8089"] [] [Db "db0" "" [] []] [] false 2 0 0.
+Proof. vm_compute. split; reflexivity. Qed.
